@@ -4,6 +4,7 @@ CONSTANTS
   MaxP = 1
   MaxB = 1
   Ty = "SE3"
+  NumBig = FALSE
   Mut = "none"
 INVARIANT TilingOnEveryBroadcastableShape
 CHECK_DEADLOCK FALSE
